@@ -128,6 +128,17 @@ func c12Run(inI interface{}, env *Env) *Failure {
 					case "err":
 						e := &c12Err{fmt.Sprintf("e%d-%d", ti, oi)}
 						signalled, failed = true, true
+						if oi%2 == 1 {
+							// several errors from a buffer the caller goes on using
+							e2 := &c12Err{fmt.Sprintf("e%d-%d-second", ti, oi)}
+							buf := make([]error, 2, 8)
+							buf[0], buf[1] = e, e2
+							target.AppendError(buf...)
+							buf[0], buf[1] = &c12Err{"caller-reused-its-buffer"}, nil
+							buf = append(buf, &c12Err{"caller-reused-its-buffer"})
+							appended = append(appended, e, e2)
+							break
+						}
 						target.AppendError(e)
 						appended = append(appended, e)
 					case "kill":
